@@ -4,3 +4,4 @@
 #define VH_W 64
 #include "vh_bits.inc"
 void (*const vh_bits_set_64)(const VhLine *) = op_bits_set_64;
+void (*const vh_bits_far_64)(const VhLine *) = op_bits_far_64;
